@@ -43,4 +43,24 @@ theorem provider_error_first (acc : Acc) (d : FuncDecl) (args : List (Name × Va
     (callWrapped acc d (.obj none) args b).result = .rejected .scopeProvider := by
   simp [callWrapped, providerScope]
 
+/-- **a function whose only dltype hint is its return annotation is checked like any other**: when the parameters carry no hint the
+    checker can use (plain types, or no parameters at all) but the return annotation does, the decorator hands back the checking
+    wrapper — never the function itself -/
+theorem return_only_is_wrapped (selfProvider isMethod : Bool) (params : List (Name × Hint)) (h : Hint) (ps : List (Name × HintAnns))
+    (r : HintAnns) (hm : (selfProvider && !isMethod) = false) (hps : hintsOf params = .ok ps) (hr : fromHint h false = .ok r)
+    (hsome : r.anns.all Option.isNone = false) :
+    decorate selfProvider isMethod params (some h) = .wrapped { params := ps, ret := some r } := by
+  unfold decorate
+  simp only [hm, Bool.false_eq_true, if_false, hps, hr, Except.map]
+  have : (List.map Prod.snd ps ++ [r]).all (fun h => h.anns.all Option.isNone) = false := by
+    simp [List.all_append, hsome]
+  simp [this]
+
+/-- … and its result is then checked: with no parameter at all, a returned value that violates the return annotation is not handed to
+    the caller (instance of `return_rejected_body_once` for the empty argument list) -/
+example (acc : Acc) (r : HintAnns) (p : Provider) (v : Value) (σ : Scope) (hp : providerScope p = .ok σ) :
+    (callWrapped acc { params := [], ret := some r } p [] (.returns v)).bodyCalls = 1 := by
+  unfold callWrapped argsPhase
+  simp [hp, addParams, runEntries]
+
 end Dltype.C07
